@@ -19,21 +19,24 @@ from . import c08
 LEAN_TARGETS = ['DawgieVerif.Model.StoreIO']
 
 MANIFEST = dict(
-    text='Lean theorems over the executable catalogue model shared with C08: the relation '
-         'Stored s target identity run content (identity = task, algorithm, state vector, value names '
-         'with versions, read back from the tables with dissect) is functional (stored_functional) and '
-         'refines a tiny abstract store for every operation and every history (store_refines, '
-         'remove_refines, other_refines, history_refines); load returns the requested run when present, '
-         'else the highest run, else leaves the value untouched (load_returns) and never reads an entry '
-         'of another target / author / version (load_isolated); value level statement under the pickle '
-         'round-trip law (load_value). Tied to the real Interface/Worker/encode/decode code by a '
-         'loop-back correspondence on real shelve files with a dictionary reference monitor.',
-    note='Trusted: Lean kernel; axioms propext/Classical.choice/Quot.sound only; tools/gen_c08.py '
-         '(shared generated definitions: __to_key call table, _load fall-back constants, tokens); '
-         'harness loop-back (sockets and lock-poller clock replaced). Assumed and sampled: pickle '
-         'round trip, md5+sha1 name determines the content (digest injectivity, C07), dbm.dumb. '
-         'Names restricted to NameOK (no colon). The metric state vector is loaded but never stored '
-         'by the harness. PostgreSQL backend (db/post) needs a server and is NOT tied.',
+    text='Lean theorems over the executable catalogue model shared with C08. Stored s target identity run '
+         'content (identity = task, algorithm, state vector, value names with versions, read back from the '
+         'tables with dissect) is a partial function (stored_functional) and, for every history of opens, '
+         'closes, target additions, registrations, stores, loads and removals, equals the cell map of a tiny '
+         'abstract store (history_refines; per operation store_refines, remove_refines); load never raises '
+         'on a reachable open catalogue and reads the requested run when present, else the highest run, else '
+         'leaves the value untouched (load_reads, load_returns against LoadSpec), and the entry it reads '
+         'resolves to exactly the requested target / author / versions (load_isolated); value level under '
+         'the pickle round-trip law (load_value). Tied to the real Interface / Worker / encode / decode code '
+         'by a loop-back correspondence on real shelve files with a dictionary reference monitor.',
+    note='Trusted: Lean kernel; axioms propext/Classical.choice/Quot.sound only; tools/gen_c08.py (shared '
+         'generated definitions: __to_key call table, _load fall-back constants, tokens, subset filters); '
+         'harness loop-back (sockets and lock-poller clock replaced). Assumed and sampled: pickle round '
+         'trip; blob name determines content (md5+sha1 injectivity, hypothesis Op.Hashed, subject of C07); '
+         'dbm.dumb persistence. Names restricted to NameOK (no colon). Contents are opaque in the model. '
+         'The metric state vector is walked by every load but never stored by the harness; _update_msv, '
+         '_collect, _recede, retarget are not modelled. PostgreSQL backend (db/post) needs a server and is '
+         'NOT tied: the theorems speak about the shelve backend only.',
     technique='Lean 4 proof (refinement to an abstract store, invariant over histories) + differential correspondence',
     design='7/C06',
 )
@@ -404,12 +407,25 @@ def run(ctx, res):
     res.assumptions = list(TRUSTED)
     lines, pending, found = [], [], []
     counter = [0]
-    for ops in CORPUS:
+    for ops in CORPUS + c08.file_corpus('C06'):
         found += [(p, ops) for p in check_history(rn, res, ops, 'corpus', lines, pending)]
-    n = 400 if thorough else 36
+    n = 400 if thorough else 48
     for _ in range(n):
         ops = gen_history(r, counter)
         found += [(p, ops) for p in check_history(rn, res, ops, 'random', lines, pending)]
+    if thorough:
+        # exhaustive small scope: every history of length 3 over a collision-rich alphabet, read back at the end
+        L = [['sv', V1, [['v', V1]]]]
+        alpha = [['update', 2, 'X', 't', 'A', V1, [['sv', V1, [['v', V1, 'r2']]]]],
+                 ['update', 9, 'X', 't', 'A', V1, [['sv', V1, [['v', V1, 'r9']]]]],
+                 ['update', 9, 'X', 't', 'A', V2, [['sv', V1, [['v', V1, 'r9 v2']]]]],
+                 ['update', 5, 'X1', 't', 'A2', V1, [['sv', V1, [['v', V1, 'elsewhere']]]]],
+                 ['remove', 9, 'X', 't', 'A', 'sv', 'v'], ['load', 5, 'X', 't', 'A', V1, L], ['close'], ['open']]
+        import itertools
+        for seq in itertools.product(alpha, repeat=3):
+            ops = [['open']] + [list(o) for o in seq] + [['open'], ['load', 9, 'X', 't', 'A', V1, L],
+                                                          ['load', 4, 'X', 't', 'A', V2, L], ['dump']]
+            found += [(p, ops) for p in check_history(rn, res, ops, 'exhaustive-3', lines, pending)]
     done = set()
     for (sig, _what), ops in found:
         if sig in done:
